@@ -15,6 +15,7 @@ fn main() {
     match (mode.as_str(), model.as_str()) {
         ("replay", "shrexeds") => eds::replay(&args),
         ("replay", "multihasher") => mh::replay(&args),
+        ("replay", "multihasherseq") => mh::replay_seq(&args),
         _ => tool_error(&format!("unknown mode/model {mode}/{model}")),
     }
 }
